@@ -181,4 +181,9 @@ theorem src_C15_std_rgb (c : ColorInterp) :
     stdRgb c = (bandInfo_stdRgb.find? fun e => e.1 == colorName c).map (·.2) := by
   cases c <;> decide +kernel
 
+/-- `cli.fuse`, `cli.compare`, `cli.stats` (C09): each command's processing sits in one `try` with one handler, `except Exception`,
+    which is the model's - log, then `raise click.Abort()` on every path; no inner handler swallows anything on the way -/
+theorem src_C09_handlers : cli_handlers = [("fuse", cliHandler), ("compare", cliHandler), ("stats", cliHandler)] := rfl
+
+
 end Homonim
